@@ -41,6 +41,10 @@ type Spec struct {
 	Assumptions []string
 	Real, Stub  []string
 	ExtraEnv    []string
+	// Prepare runs before the harness is built (e.g. to generate a corpus) and may return extra environment.
+	Prepare func(scratch string) ([]string, error)
+	// EnumShards > 1 runs every enumeration test in that many processes (VERIF_SHARD / VERIF_SHARDS).
+	EnumShards int
 	// KnownMatch attributes a violation to a listed finding ("" if none).
 	KnownMatch func(kf *known.File, class, msg, point string) string
 }
@@ -182,6 +186,14 @@ func runCollect(spec Spec) (int, *evidence.Evidence) {
 	if os.Getenv("VERIF_KEEP") == "" {
 		defer os.RemoveAll(scratch)
 	}
+	if spec.Prepare != nil {
+		env, err := spec.Prepare(scratch)
+		if err != nil {
+			fmt.Fprintln(os.Stderr, err)
+			return 2, nil
+		}
+		spec.ExtraEnv = append(spec.ExtraEnv, env...)
+	}
 	bin, err := build(spec, scratch)
 	if err != nil {
 		fmt.Fprintln(os.Stderr, err)
@@ -196,10 +208,17 @@ func runCollect(spec Spec) (int, *evidence.Evidence) {
 		test, seed string
 		idx        int
 		args       []string
+		env        []string
 	}
 	var jobs []job
 	for _, t := range spec.EnumTests {
-		jobs = append(jobs, job{test: t})
+		n := spec.EnumShards
+		if n < 1 {
+			n = 1
+		}
+		for k := 0; k < n; k++ {
+			jobs = append(jobs, job{test: t, idx: k, env: []string{fmt.Sprintf("VERIF_SHARD=%d", k), fmt.Sprintf("VERIF_SHARDS=%d", n)}})
+		}
 	}
 	for _, t := range spec.RapidTests {
 		for k := 0; k < spec.Procs; k++ {
@@ -220,7 +239,7 @@ func runCollect(spec Spec) (int, *evidence.Evidence) {
 			defer wg.Done()
 			sem <- struct{}{}
 			defer func() { <-sem }()
-			results[i] = runProc(spec, bin, scratch, j.test, j.seed, j.idx, j.args, nil)
+			results[i] = runProc(spec, bin, scratch, j.test, j.seed, j.idx, j.args, j.env)
 		}(i, j)
 	}
 	wg.Wait()
